@@ -229,6 +229,30 @@ def run_shard(spec, tier, seed):
                                   {"cell": f"{R.sysname(vsys)}|{ax}", "a": a_l.describe(), "gamma": mpmath.nstr(g, 17),
                                    "error_in_roundings_of_gamma_x_unit": mpmath.nstr(err, 6), "got": repr(got), "expected": repr(exp)})
                 res.cell("boostX(gamma=g) applies g at float64 accuracy", R.sysname(vsys), ax, mode.name)
+        # ------------------------------------------------------------------ slow boosts at float64 accuracy: for |beta| from 1e-3 down
+        # to 1e-12 the boosted vector equals the 60-digit reference to a few roundings of the vector's size (a gamma-based
+        # formula, sqrt(gamma**2 - 1), would lose the velocity altogether below 1e-8)
+        if not mode.mp:
+            eps = mpf(2) ** -52
+            ea = mode.exact(a_l)
+            for i, ax in enumerate("XYZ"):
+                b_ = mpf(r.choice([1, -1])) * mpf(2) ** r.choice([-10, -20, -30, -40])
+                try:
+                    got, _gs = L.rv_of(getattr(A, "boost" + ax)(beta=float(b_)))
+                    exp = R.op_boost_axis_beta(ea, i, b_)
+                except R.NotRepresentable:
+                    continue
+                except Exception as e:
+                    res.violation(f"C09/exception-in-slow-boost backend={mode.name}", {"cell": f"{R.sysname(vsys)}|{ax}", "exc": repr(e)[:200]})
+                    continue
+                res.evaluations += 1
+                err = max(abs(p_ - q_) for p_, q_ in zip(got.comps(), exp.comps())) / (L.maxabs(ea) * eps)
+                res.err(f"{mode.name}:slow boostX(beta) error in roundings of the vector's size", err)
+                if not err <= 64:
+                    res.violation(f"C09/law-broken law=boostX(beta=b) for slow b at float64 accuracy backend={mode.name}",
+                                  {"cell": f"{R.sysname(vsys)}|{ax}", "a": a_l.describe(), "beta": mpmath.nstr(b_, 17),
+                                   "error_in_roundings_of_unit": mpmath.nstr(err, 6)})
+                res.cell("slow boostX(beta) at float64 accuracy", R.sysname(vsys), ax, mode.name)
         # ------------------------------------------------------------------ a booster that is *stored with its mass*
         # (any of the six tau systems) determines the boost to float64 accuracy however relativistic it is: the result of
         # boost_p4 / boost / boostCM_of_p4 equals the 60-digit boost by the stored booster to a few hundred roundings of
